@@ -98,6 +98,11 @@ def extract_config(fn):
               cm.merges_super = True
               cm._base_var = t.id
               continue
+            # a local bound to a literal that nothing else in get_config reads
+            if isinstance(st.value, ast.Constant) and not any(
+                isinstance(x, ast.Name) and x.id == t.id and x is not t
+                for x in ast.walk(fn.node)):
+              continue
         if (isinstance(t, ast.Subscript) and isinstance(t.value, ast.Name)
             and t.value.id == var[0]
             and isinstance(t.slice, ast.Constant)
